@@ -8,6 +8,7 @@ CONSTANTS
   MaxEd = 1
   MaxVal = 1
   MaxObjs = 6
+  MaxLocks = 0
   MaxEvents = 4
   KF_DefaultsNotHashed = FALSE
   KF_AdoptCached = FALSE
@@ -18,4 +19,5 @@ NEXT Next
 INVARIANT Coherent
 INVARIANT Fresh
 INVARIANT Deterministic
+PROPERTY Frozen
 CHECK_DEADLOCK FALSE
